@@ -104,7 +104,7 @@ def c03_fails(binary, c):
 
 def c04_fails(binary, c):
     n = case_n(c)
-    if n is None or n > 5:
+    if n is None or (n > 5 and not (c["kind"] == "applyseq" and n <= 14)):
         return None
     if c["kind"] == "applyseq":
         gates = list(c["es"])
